@@ -61,7 +61,7 @@ m('c04-do-kill-wrong-label', 'C04', P, "new_state = self._create_state_instance(
 m('c04-kill-direct-while-stepping', 'C04', P, "        if self._stepping:\n            # Ask the step function to pause by setting this flag and giving the\n            # caller back a future\n            interrupt_exception = process_states.KillInterruption(msg_text)",
   "        if self._stepping and self._state.LABEL == process_states.ProcessState.WAITING:\n            interrupt_exception = process_states.KillInterruption(msg_text)", 'fire', 'Process.kill', 'direct kill in the middle of a running step')
 m('c04-cancel-hook-removed', 'C04', P, "            self._future.add_done_callback(try_killing)", "            pass", 'fire', 'init')
-m('c04-cancel-hook-inverted', 'C04', P, "                if future.cancelled():\n                    if not self.kill(", "                if not future.cancelled():\n                    if not self.kill(", 'fire', 'try_killing')
+m('c04-cancel-hook-inverted', 'C04', P, "                if future.cancelled():\n                    if not self.kill(", "                if not future.cancelled():\n                    if not self.kill(", 'fire', 'PAIR-cancel-hook')
 m('c04-waiting-interrupt-noop', 'C04', PS, "        # This will cause the future in execute() to raise the exception\n        self._waiting_future.set_exception(reason)",
   "        pass", 'fire', 'Waiting.interrupt')
 m('c04-running-swallows-interruption', 'C04', PS, "            except Interruption:\n                # Let this bubble up to the caller\n                raise\n            except Exception:",
@@ -116,7 +116,7 @@ m('c02-entering-finished-branch-gone', 'C02', P, "        elif state_label == pr
 m('c02-killed-hook-swapped', 'C02', P, "            call_with_super_check(self.on_excepted)\n        elif state_label == process_states.ProcessState.KILLED:\n            call_with_super_check(self.on_killed)", "            call_with_super_check(self.on_killed)\n        elif state_label == process_states.ProcessState.KILLED:\n            call_with_super_check(self.on_excepted)", 'fire', 'on_entered')
 m('c02-future-resolved-in-on_run', 'C02', P, '        """Entering the RUNNING state."""\n', '        """Entering the RUNNING state."""\n        if not self._future.done():\n            self._future.set_result(None)\n', 'fire', 'on_run')
 m('c02-on-terminated-only-if-not-failing', 'C02', SM, "            if self._state is not None and self._state.is_terminal():\n                call_with_super_check(self.on_terminated)", "            if self._state is not None and self._state.is_terminal() and not self._transition_failing:\n                call_with_super_check(self.on_terminated)", 'fire', 'transition_to')
-m('c02-silent-drop-per-cleanup-handler', 'C02', P, "                try:\n                    cleanup()\n                except Exception:\n                    self.logger.exception('Process<%s>: Exception calling cleanup method %s', self.pid, cleanup)", "                cleanup()", 'silent', None, 'failing cleanups are outside C02')
+m('c02-silent-drop-per-cleanup-handler', 'C02', P, "                try:\n                    cleanup()\n                except Exception:\n                    self.logger.exception('Process<%s>: Exception calling cleanup method %s', self.pid, cleanup)", "                cleanup()", 'fire', 'on_close', 'a failing cleanup would keep the remaining ones from running')
 m('c02-silent-close-guard-removed', 'C02', P, "        if self._closed:\n            return\n\n        call_with_super_check(self.on_close)", "        call_with_super_check(self.on_close)", 'silent', None, 'on_close consumes the list: still at most once')
 m('c02-both-once-defences-removed', 'C02', P, "            self._cleanups = None\n        finally:", "        finally:", 'silent', None, 'close() guard alone still suffices')
 m('c02-except-arg-wrong', 'C02', P, "        exception = exc_info[1]\n        exception.__traceback__", "        exception = RuntimeError('process excepted')\n        exception.__traceback__", 'fire', 'on_except')
